@@ -519,7 +519,7 @@ func C19(c *core.Ctx) {
 	// from an earlier call are stale although no routing-table entry changed.
 	if gf := c.Fn("R19.14", "dv/table", "Rib", "GetFibEntries"); gf != nil {
 		var looks []ssa.Instruction
-		core.Instrs(gf, func(in ssa.Instruction) {
+		core.InstrsDeep(gf, func(in ssa.Instruction) { // (the look-ups may sit in a helper)
 			if _, ok := core.IsCall(in, core.CalleeID{Pkg: "dv/table", Recv: "NeighborTable", Name: "GetH"}, core.CalleeID{Pkg: "dv/table", Recv: "NeighborTable", Name: "Get"}); ok {
 				looks = append(looks, in)
 			}
@@ -569,7 +569,7 @@ func C19(c *core.Ctx) {
 			if fresh(r.Results[0]) && len(looks) > 0 {
 				return
 			}
-			if !core.Precedes(gf, r, func(x ssa.Instruction) bool {
+			if !core.PrecedesDeep(gf, r, func(x ssa.Instruction) bool {
 				for _, l := range looks {
 					if x == l {
 						return true
